@@ -104,6 +104,8 @@ pub struct Obs {
     pub known: Arc<Known>,
     pub evaluations: u64,
     pub nontrivial: HashSet<u64>,
+    /// non-trivial cases counted without hashing: only for enumerations that cannot repeat a case
+    pub distinct_enum: u64,
     pub classes: BTreeMap<String, u64>,
     pub samples: BTreeMap<String, Vec<Value>>,
     pub headroom: BTreeMap<String, (f64, Value)>,
@@ -120,6 +122,7 @@ impl Obs {
             known,
             evaluations: 0,
             nontrivial: HashSet::new(),
+            distinct_enum: 0,
             classes: BTreeMap::new(),
             samples: BTreeMap::new(),
             headroom: BTreeMap::new(),
@@ -160,6 +163,12 @@ impl Obs {
             let mut h = std::collections::hash_map::DefaultHasher::new();
             key.hash(&mut h);
             self.nontrivial.insert(h.finish());
+        }
+    }
+    /// count `n` non-trivial cases of an enumeration that visits every case exactly once
+    pub fn nontrivial_enum(&mut self, n: u64) {
+        if !self.frozen {
+            self.distinct_enum += n;
         }
     }
     pub fn exclude(&mut self, why: &str) {
@@ -226,6 +235,7 @@ impl Obs {
     pub fn merge(&mut self, o: Obs) {
         self.evaluations += o.evaluations;
         self.nontrivial.extend(o.nontrivial);
+        self.distinct_enum += o.distinct_enum;
         for (k, v) in o.classes {
             *self.classes.entry(k).or_insert(0) += v;
         }
@@ -460,7 +470,7 @@ impl Run {
             .iter()
             .map(|(k, (r, v))| (k.clone(), json!({"max_error_over_tolerance": r, "case": v})))
             .collect();
-        let distinct = self.obs.nontrivial.len();
+        let distinct = self.obs.nontrivial.len() as u64 + self.obs.distinct_enum;
         let known_hits: BTreeMap<String, Value> = self
             .obs
             .known_hits
